@@ -11,7 +11,7 @@ from props.c06 import ix, zl  # noqa: E402
 
 ID = "C01"
 THEOREMS = ["c01_read_after_write_region", "c01_region_frame", "c01_write_all", "c01_resize_keeps",
-            "c01_row_major", "c01_type_fixed"]
+            "c01_row_major", "c01_type_fixed", "c01_region_inbounds", "c01_selection_cells_distinct"]
 HEADER = ("From Coq Require Import ZArith List QArith.\nFrom NixV Require Import Base.Prelude Pure.Slices Pure.SlicesCheck "
           "Pure.Array Pure.ArrayCheck.\nImport ListNotations.\nOpen Scope Z_scope.\n")
 DT = ["int8", "int16", "int32", "int64", "uint8", "uint16", "uint32", "uint64", "float32", "float64", "bool", "text"]
